@@ -16,6 +16,7 @@ import Pandora.Proofs.C08Scan
 import Pandora.Proofs.C08Term
 import Pandora.Proofs.C08Fault
 import Pandora.Proofs.C08Bisim
+import Pandora.Proofs.C08Coin
 import Pandora.Bridge.ProvLoops
 import Pandora.Drv.C08
 
@@ -415,6 +416,28 @@ theorem C08_load_lines (style : Style) (f : Lines) (hn : 0 < f.count true) :
   have := loadLines_ok style f hn (f.count true + 1) 0 LDec.init (RLines_init f) (by omega)
   simpa using this
 
+/-- **what Go's `select` adds after a cancel** — the possibilistic bound on sends after a cancel is false for the
+providers without a ctx check at the loop top (`C08_conc_cancel_stops_counterexample`); Go resolves a `select` with
+several ready cases by a uniform random choice.  With one coin per select (`coinRun`: `Run` on its own from ANY state of
+ANY provider kind in which the context is cancelled, a consumer always ready so that the send case is always ready too
+— the worst case; `true` = the send case, `false` = the Done case): among the `2^k` equally likely outcomes of the
+first `k` coins at most `2^(k-j)` let `Run` send `j` more ammo — probability at most `2^-j` — and the first `false`
+that meets a select in progress ends `Run`. -/
+theorem C08_conc_cancel_geometric (inp : Input) (n cons : Nat) (ls : List Label) (fuel k j : Nat) (hj : j ≤ k)
+    (hc : (reach inp n cons ls).cancelled = true) :
+    ((allCoins k).filter (fun cs => decide ((reach inp n cons ls).sent + j ≤
+        (coinRun inp n inp.kind.chanCap fuel cs (reach inp n cons ls)).sent))).length ≤ 2 ^ (k - j) ∧
+    (allCoins k).length = 2 ^ k ∧
+    (∀ cs, (reach inp n cons ls).result.isSome = false → (reach inp n cons ls).offering.isSome = true →
+      (coinRun inp n inp.kind.chanCap (fuel + 1) (false :: cs) (reach inp n cons ls)).result.isSome = true) := by
+  refine ⟨?_, allCoins_length k, fun cs hr ho => coinRun_tail inp n _ fuel cs _ hr ho hc⟩
+  rw [← heads_count k j hj]
+  apply filter_length_mono
+  intro cs h
+  have h1 := coinRun_sent inp n inp.kind.chanCap fuel cs _ hc
+  simp only [decide_eq_true_eq] at h ⊢
+  omega
+
 /-- **the concurrent machine runs on the line-level decoder too** — `Model.C08Mach.stepOf` (the iteration every
 interleaving theorem is about) runs `runFullScan` on the entry-level decoder `scanStream`; over the line-level decoder
 of `Model.C08Scan` (round function regenerated from uri.go / uripost.go / raw.go / jsonline.go) on ANY file with `n ≥ 1`
@@ -654,6 +677,10 @@ example : (reach ⟨.httpScenario, false, ⟨0, 0⟩, none⟩ 3 1 ([.prod, .push
     (reach ⟨.httpScenario, false, ⟨0, 0⟩, none⟩ 3 1 ([.prod, .push, .prod, .push] ++ [.cancel])).cancelled = true ∧
     Kind.ctxTop .httpScenario = true := by decide
 
+-- round 3: grpc/json cancelled in its select; the coins true, true, false: two more ammo, then Run has returned (nil)
+example : let s := reach ⟨.grpcJson, false, ⟨0, 0⟩, none⟩ 2 1 [.prod, .cancel]
+    let e := coinRun ⟨.grpcJson, false, ⟨0, 0⟩, none⟩ 2 128 9 [true, true, false, true] s
+    (s.cancelled, s.offering.isSome, s.sent, e.sent, e.result, heads [true, true, false, true]) = (true, true, 0, 2, some .nil, 2) := by decide
 -- round 3: an I/O error in the middle of the second pass of a raw file read by two consumers, after a cancel …
 example : let f := freach ⟨.raw, false, ⟨0, 0⟩, none⟩ 2 2 [.sys .prod, .sys (.hand 1), .sys .prod, .sys (.hand 0), .sys .prod, .sys (.hand 1), .sys .cancel, .ioerr, .sys (.eoa 0)]
     (f.s.acquired, f.s.result, f.s.closed, f.faulted, f.s.ended) = ([0, 1, 0], some .errOther, true, true, [0]) := by decide
